@@ -214,8 +214,13 @@ func (w *worker) runOnePath(job *Job, fn *ssa.Function, res *JobResult) {
 			}
 		}
 	}()
+	e.violatedOnPath = false
 	e.callFunction(nil, fn, []Value{int64(job.N)}, nil)
-	res.EndKinds["completed"]++
+	if e.violatedOnPath {
+		res.EndKinds["violated"]++
+	} else {
+		res.EndKinds["completed"]++
+	}
 	if e.steps > e.MaxStepsCompleted {
 		e.MaxStepsCompleted = e.steps
 	}
